@@ -757,11 +757,17 @@ Lemma field_seg_h : forall k f a next s n',
 Proof.
   intros k f a next s n' H Hd f' sl pre post Es.
   assert (Hnone : slot_h (SOpt None)) by (intros u []).
-  destruct k as [|seps|seps|seps sb], a as [n|[n|]|items]; simpl in H; try discriminate;
-    try (inversion H; subst s; inversion Es; subst sl; try exact Hnone;
-         intros u Hu; simpl in Hu; eapply donor_slot_h; [|exact Hu]; apply Hd; left; reflexivity).
-  destruct (rep_all_segs cs new mid next seps sb items) as [[ph rsegs] n2] eqn:E.
-  inversion H. subst s. inversion Es. subst sl. eapply rep_slot_h; eauto.
+  assert (Hsome : forall n, donor cs n -> slot_h (SOpt (Some (reattach cs new n)))).
+  { intros n Hn u Hu. simpl in Hu. eapply donor_slot_h; eauto. }
+  destruct k as [|seps|seps|seps sb], a as [n|[n|]|items]; simpl in H; try discriminate.
+  - rewrite Es in H. inversion H. subst.
+    intros u Hu. simpl in Hu. eapply donor_slot_h; [|exact Hu]. apply Hd. left. reflexivity.
+  - rewrite Es in H. inversion H. subst. apply Hsome. apply Hd. left. reflexivity.
+  - rewrite Es in H. inversion H. subst. exact Hnone.
+  - rewrite Es in H. inversion H. subst. apply Hsome. apply Hd. left. reflexivity.
+  - rewrite Es in H. inversion H. subst. exact Hnone.
+  - destruct (rep_all_segs cs new mid next seps sb items) as [[ph rsegs] n2] eqn:E.
+    rewrite Es in H. inversion H. subst. eapply rep_slot_h; eauto.
 Qed.
 
 Lemma build_h : forall c args l next segs, build cs new mid c args l next = Some segs ->
@@ -843,3 +849,84 @@ Proof.
   eapply edit_insert; [eapply constructed_donor; eauto|exact Hg| | |exact Hins]; rewrite Ht; assumption.
 Qed.
 End Full.
+
+(* ---- the generated classes ---------------------------------------------------------------------------------- *)
+Theorem constructed_wf_generated : forall c args new mid data next store n,
+  In c classes -> find_class all_classes (c_name c) = Some c ->
+  args_all args (arg_good all_classes) -> args_fresh args next ->
+  construct all_classes new mid c args data next = Some (store, n) ->
+  WF all_classes n /\ whole_store n store.
+Proof.
+  intros c args new mid data next store n Hc Hf Hargs Hfr H.
+  exact (constructed_wf_full all_classes new mid classes_ok_all c args data next store n
+           classes_anchored_all Hf (generated_wf_each c Hc) (names_nodup_all c (proj1 (find_class_In _ _ _ Hf)))
+           (generated_edges_each c Hc) Hargs Hfr H).
+Qed.
+
+Theorem constructed_hwf_generated : forall c args new mid data next store n,
+  In c classes -> find_class all_classes (c_name c) = Some c ->
+  args_all args (donor all_classes) -> args_fresh args next ->
+  construct all_classes new mid c args data next = Some (store, n) ->
+  HWF all_classes n /\ (mem (c_name c) store_spanning = false -> donor all_classes n).
+Proof.
+  intros c args new mid data next store n Hc Hf Hargs Hfr H.
+  pose proof (generated_wf_each c Hc) as Hwf.
+  pose proof (names_nodup_all c (proj1 (find_class_In _ _ _ Hf))) as Hnd.
+  pose proof (generated_edges_each c Hc) as He.
+  split.
+  - exact (constructed_hwf all_classes new mid classes_ok_all c args data next store n
+             classes_anchored_all Hf Hwf Hnd He Hargs Hfr H).
+  - intro Hex.
+    exact (constructed_donor all_classes new mid classes_ok_all c args data next store n
+             classes_anchored_all Hf Hwf Hnd He Hex Hargs Hfr H).
+Qed.
+
+(* ---- (5) the hypotheses are satisfiable: Open.from_children(...) of ConstructFacts ------------------------ *)
+Lemma args_all_of_b : forall (p : node -> bool) (P : node -> Prop) args,
+  (forall n, p n = true -> P n) ->
+  forallb (fun fa => forallb p (arg_nodes (snd fa))) args = true -> args_all args P.
+Proof.
+  intros p P args Hp H f a Ha x Hx. apply Hp. rewrite forallb_forall in H.
+  assert (Hin : In (f, a) args).
+  { clear -Ha. induction args as [|[k v] l IH]; simpl in Ha; [discriminate|].
+    destruct (String.eqb k f) eqn:E; [apply String.eqb_eq in E; inversion Ha; subst; left; reflexivity|right; auto]. }
+  specialize (H (f, a) Hin). simpl in H. rewrite forallb_forall in H. auto.
+Qed.
+
+Definition donor_b (n : node) : bool :=
+  hwf_b all_classes n && conforms all_classes n && negb (exempt (UNode n)).
+Lemma donor_b_sound : forall n, donor_b n = true -> donor all_classes n.
+Proof.
+  intros n H. unfold donor_b in H. apply andb_true_iff in H. destruct H as [H H3].
+  apply andb_true_iff in H. destruct H as [H1 H2]. split; [apply hwf_b_sound; exact H1|].
+  split; [exact H2|apply negb_true_iff; exact H3].
+Qed.
+
+Lemma ex_args_donors : args_all ex_args (donor all_classes).
+Proof. apply (args_all_of_b donor_b); [exact donor_b_sound|vm_compute; reflexivity]. Qed.
+
+Lemma ex_args_fresh : args_fresh ex_args 1000.
+Proof. apply args_fresh_b_sound. vm_compute. reflexivity. Qed.
+
+Lemma ex_open_in : In c_Open classes /\ find_class all_classes (c_name c_Open) = Some c_Open.
+Proof.
+  assert (H : find_class classes "Open" = Some c_Open) by (vm_compute; reflexivity).
+  split; [exact (proj1 (find_class_In _ _ _ H))|vm_compute; reflexivity].
+Qed.
+
+Example ex_construct_full :
+  match ex_construct with
+  | Some (store, n) =>
+    WF all_classes n /\ whole_store n store /\ HWF all_classes n /\ donor all_classes n
+    /\ length store = 23 /\ args_fresh_b ex_args 1000 = true
+  | None => False
+  end.
+Proof.
+  destruct ex_construct as [[store n]|] eqn:E; [|vm_compute in E; discriminate].
+  unfold ex_construct in E. destruct ex_open_in as [Hin Hf].
+  destruct (constructed_wf_generated c_Open ex_args 9 77 _ 1000 store n Hin Hf ex_args_good ex_args_fresh E) as [A B].
+  destruct (constructed_hwf_generated c_Open ex_args 9 77 _ 1000 store n Hin Hf ex_args_donors ex_args_fresh E) as [C D].
+  split; [exact A|]. split; [exact B|]. split; [exact C|]. split; [apply D; reflexivity|].
+  split; [|vm_compute; reflexivity].
+  vm_compute in E. inversion E. reflexivity.
+Qed.
